@@ -417,6 +417,26 @@ def strip_tail_continue(fn, used):
     return fn
 
 
+def canonical_branches(fn, used):
+    """R15: `if not c: A else: B` == `if c: B else: A`; `if x is None: A else: B` ==
+    `if x is not None: B else: A` (both arms present, no elif chain on the swapped arm)"""
+    class Canon(ast.NodeTransformer):
+        def visit_If(self, n):
+            self.generic_visit(n)
+            if not n.orelse or (len(n.orelse) == 1 and isinstance(n.orelse[0], ast.If)):
+                return n
+            t = n.test
+            if isinstance(t, ast.UnaryOp) and isinstance(t.op, ast.Not):
+                n.test, n.body, n.orelse = t.operand, n.orelse, n.body
+                used.add("R15:branch-order")
+            elif isinstance(t, ast.Compare) and len(t.ops) == 1 and isinstance(t.ops[0], ast.Is) and isinstance(t.comparators[0], ast.Constant) and t.comparators[0].value is None:
+                n.test = ast.Compare(left=t.left, ops=[ast.IsNot()], comparators=t.comparators)
+                n.body, n.orelse = n.orelse, n.body
+                used.add("R15:branch-order")
+            return n
+    return Canon().visit(fn)
+
+
 def alpha_rename(fn, used):
     """R13: local variables are renamed canonically in order of first binding (parameters, names
     declared global/nonlocal and names of nested functions keep their names)"""
@@ -494,8 +514,9 @@ def compare(sync_fn, async_fn, facts_sync=None, facts_async=None, sigs=None):
     # last resort: the same comparison after canonical renaming of locals and removal of
     # redundant tail `continue`s (both behaviour-preserving)
     used2: set = set()
-    a2 = alpha_rename(strip_tail_continue(copy.deepcopy(a), used2), used2)
-    b2 = alpha_rename(strip_tail_continue(copy.deepcopy(b), used2), used2)
+    a2 = alpha_rename(canonical_branches(strip_tail_continue(copy.deepcopy(a), used2), used2), used2)
+    b2 = alpha_rename(canonical_branches(strip_tail_continue(copy.deepcopy(b), used2), used2), used2)
+    a2, b2 = ast.fix_missing_locations(a2), ast.fix_missing_locations(b2)
     if ast.unparse(a2) == ast.unparse(b2):
         return True, "tier2:congruence modulo rewrite rules", sorted(used | used2), []
     diff = [l for l in difflib.unified_diff(sa.splitlines(), sb.splitlines(), "sync", "async(erased)", lineterm="", n=1)]
